@@ -63,7 +63,21 @@ def main():
         print(f"unyt imported from {unyt.__file__}, expected under {core.REPO}", file=sys.stderr)
         sys.exit(2)
     mod = importlib.import_module(a.prop.lower())
-    rc = mod.run(a.tier, seed)
+    try:
+        rc = mod.run(a.tier, seed)
+    except Exception:  # noqa: BLE001
+        # the harness could not complete on this tree (an operation the model/oracle relies on
+        # raised something unexpected): the property is no longer shown to hold.  Report it in the
+        # protocol's terms instead of dying with a traceback.
+        import traceback
+
+        tb = traceback.format_exc()
+        sys.stderr.write(tb)
+        path = core.write_replay(a.prop, {"property": a.prop, "key": "harness-crash", "seed": seed, "tier": a.tier,
+                                          "no_failing_input_found": True,
+                                          "unchecked": {"correspondence": "the check's harness raised before finishing", "traceback": tb[-3000:]}})
+        print(f"VIOLATION property={a.prop} replay={path} no-failing-input-found")
+        rc = 1
     sys.exit(rc)
 
 
